@@ -91,7 +91,10 @@ Perturb(p) == {p, Append(p, <<"a">>), Append(p, <<>>)}
               \cup {[p EXCEPT ![i] = Front1(@)] : i \in {j \in DOMAIN p : p[j] # <<>>}}
 PathsFor(ap) == LET rts == {x.route : x \in AllRoutes(ap)} \cup {mt.prefix : mt \in AllMounts(ap)} IN
                 UNION {Perturb(InstWith(r, w)) : r \in rts, w \in {<<"a">>, <<"b", "b">>}} \cup {<<>>, <<<<"b">>, <<"a">>>>}
-ReqMethods == IF METHODS THEN <<"GET", "POST", "HEAD", "PUT">> ELSE IF MODE = "c04" THEN <<"GET", "POST">> ELSE <<"GET", "HEAD">>
+\* (C04 also sends OPTIONS: the default handler of that method lives in a tree of its own, and the fangs of the covering applications wrap it
+\*  like any other; C01 does not -- what an OPTIONS request is answered with is CORS's business, C14)
+ReqMethods == IF METHODS THEN (IF MODE = "c04" THEN <<"GET", "POST", "HEAD", "PUT", "OPTIONS">> ELSE <<"GET", "POST", "HEAD", "PUT">>)
+              ELSE IF MODE = "c04" THEN <<"GET", "POST", "OPTIONS">> ELSE <<"GET", "HEAD">>
 \* near-miss paths get one method and one trailing-slash variant each (rotating), route instances get every method
 Reqs(ap) == LET ps == SetToSeq(PathsFor(ap))
                 nm == Len(ReqMethods)
